@@ -351,9 +351,8 @@ namespace c13
           auto tc = A.apply_transposed_async(rc, x);
           auto td = A.apply_transposed_async(rd, x, y, 0.5);
           td.wait(); tb.wait(); tc.wait(); ta.wait();
-          const double* p0 = raw(r.local());   // r holds apply_transposed(r, x, y, 0.5)
-          for(size_t k = 0; k < size_t(n) * size_t(bs); ++k) if(raw(rd.local())[k] != p0[k]) { out.note += "apply_transposed_async(r,x,y,alpha) differs from apply_transposed(r,x,y,alpha); "; break; }
-          if(out.vec[0].size() == size_t(n) * size_t(bs)) for(size_t k = 0; k < out.vec[0].size(); ++k) if(raw(rc.local())[k] != out.vec[0][k]) { out.note += "apply_transposed_async(r,x) differs from apply_transposed(r,x); "; break; }
+          out.mat.assign(raw(rc.local()), raw(rc.local()) + size_t(n) * size_t(bs));
+          out.mat.insert(out.mat.end(), raw(rd.local()), raw(rd.local()) + size_t(n) * size_t(bs));
           out.vec[2].assign(raw(ra.local()), raw(ra.local()) + size_t(n) * size_t(bs));
           out.vec[3].assign(raw(rb.local()), raw(rb.local()) + size_t(n) * size_t(bs));
         }
@@ -371,7 +370,7 @@ namespace c13
           Global::Vector<Vec3, Mirror> r3(&gate3, Vec3(n)), y3(&gate3, Vec3(n));
           for(Index j = 0; j < n; ++j) for(int c = 0; c < 3; ++c) raw(y3.local())[size_t(j) * 3u + size_t(c)] = val_v(R.p2b[size_t(j)], c);
           r3.format(-77.0); Ar.apply_transposed(r3, x);
-          out.mat.assign(raw(r3.local()), raw(r3.local()) + size_t(n) * 3u);
+          out.mat.insert(out.mat.end(), raw(r3.local()), raw(r3.local()) + size_t(n) * 3u);
           r3.format(-77.0); Ar.apply_transposed(r3, x, y3, -0.5);
           out.mat.insert(out.mat.end(), raw(r3.local()), raw(r3.local()) + size_t(n) * 3u);
           out.scal.push_back(double(Ar.rows())); out.scal.push_back(double(Ar.columns()));
